@@ -42,6 +42,8 @@ type Violation struct {
 	Stderr   string            `json:"stderr,omitempty"`
 	Killed   bool              `json:"killed_worker,omitempty"`
 	ReplayCmd string           `json:"replay_cmd,omitempty"`
+	// Prelude: run indices executed in the same process before the replayed run (see the worker)
+	Prelude []int64 `json:"prelude,omitempty"`
 }
 
 type Outcome struct {
@@ -313,6 +315,10 @@ func classify(m *propMeta, pr *procResult) (class, key string) {
 		return strings.ToLower(prop) + "/blocked", "deadlock"
 	case strings.Contains(pr.Stderr, "stack overflow") || strings.Contains(pr.Stderr, "goroutine stack exceeds"):
 		return strings.ToLower(prop) + "/crash", "stack-overflow"
+	case strings.Contains(pr.Stderr, "from outside bubble"):
+		// the library kept a channel / timer that was created in an earlier run's bubble (package-level state
+		// crossing simulation runs): a limitation of running many runs per process, not a verdict
+		return "cross-bubble", ""
 	case strings.Contains(pr.Stderr, "fatal error:"):
 		return strings.ToLower(prop) + "/crash", "fatal-error"
 	}
@@ -558,6 +564,7 @@ func main() {
 
 	// 1. listed known findings: replay each reproducer; print KNOWN-FINDING only while it still fails
 	knownStill := map[string]bool{}
+	crossBubble := ""
 	var knownLines []string
 	for _, k := range known {
 		if k.Replay == "" {
@@ -684,6 +691,10 @@ func main() {
 		if c == "harness" {
 			trouble("worker died (exit %d %s):\n%s", pr.ExitCode, pr.Signal, firstLines(pr.Stderr, 60))
 		}
+		if c == "cross-bubble" {
+			crossBubble = fmt.Sprintf("a worker stopped at run %d: %s", pr.CurRun, firstLines(pr.Stderr, 3))
+			c = ""
+		}
 		if c != "" {
 			// the process was killed by the run in flight: reconstruct it from (seed, run index)
 			v := &Violation{Property: prop, Class: c, Key: k, Detail: firstLines(pr.Stderr, 60), Seed: seed, Run: pr.CurRun, Tier: tier, Stderr: firstLines(pr.Stderr, 80), Killed: true}
@@ -707,6 +718,9 @@ func main() {
 		}
 	}
 
+	if viol == nil && crossBubble != "" {
+		trouble("the library keeps a channel or timer created in one simulation run and uses it in a later one (package-level state); the simulator runs many runs per process, each in its own synctest bubble, and cannot continue. No violation was found in the runs that completed. %s", crossBubble)
+	}
 	exit := 0
 	var replayPath string
 	if viol != nil {
@@ -714,12 +728,27 @@ func main() {
 		if viol.Extra != nil && viol.Extra["from_seed"] == "1" {
 			// regenerate the trace of the killed run: a replay file with an empty trace and the
 			// seed/run makes the worker regenerate; simpler: ask a worker to dump the trace.
-			viol.Trace = regenTrace(m, viol)
+			tr, ok := regenTrace(m, viol)
+			if !ok {
+				// the death may depend on what the worker's earlier runs left behind in package-level
+				// variables of the library: replay them in the same process first
+				viol.Prelude = preludeOf(viol.Run, total, P)
+				if len(viol.Prelude) > 0 {
+					tr, ok = regenTrace(m, viol)
+				}
+				if !ok {
+					fmt.Fprintf(os.Stderr, "sup: run %d killed its worker (%s) but does not reproduce, neither alone nor after the worker's earlier runs - harness trouble\n%s\n", viol.Run, viol.Class, viol.Stderr)
+					os.Exit(2)
+				}
+			}
+			viol.Trace = tr
 		}
 		writeJSON(vfile, viol)
 		inProc := !viol.Killed && (viol.Extra == nil || viol.Extra["kills"] != "1")
 		var small *Violation
-		if inProc {
+		if len(viol.Prelude) > 0 {
+			small = viol // minimised below: the prelude, not the trace
+		} else if inProc {
 			pr := runWorker(m, workerArgs{Prop: prop, Mode: "shrink", File: vfile, Budget: 3000}, 10*time.Minute)
 			if pr.ExitCode == 3 && pr.Res != nil && pr.Res.Violation != nil && pr.Res.Violation.Class == viol.Class {
 				small = pr.Res.Violation
@@ -789,10 +818,72 @@ func main() {
 				ok, lastDetail = confirm(replayPath, small.Class, attempts)
 			}
 		}
+		if ok < 2 && !(isRace && ok >= 1) && len(small.Prelude) == 0 && len(viol.Trace) > 0 {
+			// last resort: the violation may depend on state that earlier runs of the exploring worker left in
+			// package-level variables of the library - replay those runs in the same process first
+			if pre := preludeOf(viol.Run, total, P); len(pre) > 0 {
+				fmt.Fprintf(os.Stderr, "sup: run %d does not reproduce alone; replaying it after the worker's %d earlier runs\n", viol.Run, len(pre))
+				orig := *viol
+				orig.Property = prop
+				orig.ReplayCmd = small.ReplayCmd
+				orig.Prelude = pre
+				writeJSON(replayPath, &orig)
+				small = &orig
+				ok, lastDetail = confirm(replayPath, small.Class, attempts)
+			}
+		}
+		if len(small.Prelude) > 0 && (ok >= 2 || (isRace && ok >= 1)) {
+			// minimise the prelude: the shortest suffix of the earlier runs that still reproduces, then drop
+			// single runs of it
+			full := small.Prelude
+			try := func(pre []int64) bool {
+				c := *small
+				c.Prelude = pre
+				f := filepath.Join(scratch, "prelude-candidate.json")
+				writeJSON(f, &c)
+				cl, _, _, _ := replayOnce(m, f)
+				os.Remove(f)
+				return cl == small.Class
+			}
+			best := full
+			for k := 1; k < len(full); k *= 2 {
+				if try(full[len(full)-k:]) {
+					best = full[len(full)-k:]
+					break
+				}
+			}
+			if len(best) <= 16 {
+				for i := 0; i < len(best) && len(best) > 1; {
+					cand := append(append([]int64(nil), best[:i]...), best[i+1:]...)
+					if try(cand) {
+						best = cand
+					} else {
+						i++
+					}
+				}
+			}
+			small.Prelude = best
+			if small.Extra == nil {
+				small.Extra = map[string]string{}
+			}
+			small.Extra["prelude"] = fmt.Sprintf("the violation needs state that earlier runs of the same process left in package-level variables of the library: the replay executes runs %v (same seed) in one process before the failing run; minimised from the %d runs the exploring worker had executed", best, len(full))
+			writeJSON(replayPath, small)
+			ok2, d2 := confirm(replayPath, small.Class, attempts)
+			if ok2 >= 2 || (isRace && ok2 >= 1) {
+				ok, lastDetail = ok2, d2
+			} else {
+				small.Prelude = full
+				writeJSON(replayPath, small)
+			}
+			lastDetail = small.Extra["prelude"] + "\n" + lastDetail
+		}
 		switch {
 		case ok >= 2 || (isRace && ok >= 1):
 			if ok < 2 {
-				small.Extra = map[string]string{"intermittent": "reproduced once in several replays: the race depends on library-internal nondeterminism (e.g. sync.Pool) outside the simulator's control"}
+				if small.Extra == nil {
+					small.Extra = map[string]string{}
+				}
+				small.Extra["intermittent"] = "reproduced once in several replays: the race depends on library-internal nondeterminism (e.g. sync.Pool) outside the simulator's control"
 				writeJSON(replayPath, small)
 			}
 			fmt.Printf("violation class=%s key=%s run=%d (trace %d draws, shrink calls %d)\n%s\n", small.Class, small.Key, small.Run, len(small.Trace), small.Calls, lastDetail)
@@ -873,7 +964,7 @@ func isKnown(known []KnownFinding, class, key string) string {
 // regenTrace obtains the draws of a run that killed its worker (so could not report them): the run
 // is replayed by (seed, index) in a fresh process that writes every draw to a file at once. The
 // replay must die the same way, otherwise the death is not a function of the run (harness trouble).
-func regenTrace(m *propMeta, v *Violation) []uint64 {
+func regenTrace(m *propMeta, v *Violation) ([]uint64, bool) {
 	nv := *v
 	nv.Extra = map[string]string{"regen": "1"}
 	f := filepath.Join(scratch, "regen.json")
@@ -885,8 +976,10 @@ func regenTrace(m *propMeta, v *Violation) []uint64 {
 		c = pr.Res.Violation.Class
 	}
 	if c != v.Class {
-		fmt.Fprintf(os.Stderr, "sup: run %d killed its worker (%s) but replaying it by seed gave %q - harness trouble\n%s\n", v.Run, v.Class, c, firstLines(pr.Stderr, 30))
-		os.Exit(2)
+		fmt.Fprintf(os.Stderr, "sup: run %d killed its worker (%s) but replaying it by seed (prelude of %d runs) gave %q\n", v.Run, v.Class, len(v.Prelude), c)
+		os.Remove(f)
+		os.Remove(tf)
+		return nil, false
 	}
 	b, _ := os.ReadFile(tf)
 	var tr []uint64
@@ -899,7 +992,19 @@ func regenTrace(m *propMeta, v *Violation) []uint64 {
 	os.Remove(f)
 	os.Remove(tf)
 	delete(v.Extra, "from_seed")
-	return tr
+	return tr, true
+}
+
+// preludeOf lists the runs the exploring worker executed before run (worker w of P handles w, w+P, ...).
+func preludeOf(run, total int64, P int64) []int64 {
+	if run >= total {
+		return nil // a cold-process run: nothing came before it
+	}
+	var out []int64
+	for i := run % P; i < run; i += P {
+		out = append(out, i)
+	}
+	return out
 }
 
 func maxI64(a, b int64) int64 {
